@@ -188,6 +188,12 @@ def run(tier):
                          "charges": [rm.GetAtomWithIdx(i).GetFormalCharge() for i in range(n)],
                          "unpaired": [rm.GetAtomWithIdx(i).GetNumRadicalElectrons() for i in range(n)], "lewis": True,
                          "src": f"{name}|order{k}|to_rdmol"})
+    # observation (not part of C18 as written): bond orders above three, e.g. the S-S bond of a disulfide comes out with
+    # order five because S(VI) is tried before S(II); every atom still has a standard valence
+    high = sorted({r["src"].split("|")[0] for r in recs if r["lewis"] and any(x > 3 for row in r["bo"] for x in row)})
+    if high:
+        rep.note("bond orders above 3 were assigned (every atom still in a standard valence) for %d inputs, e.g. %s"
+                 % (len(high), ", ".join(high[:4])))
     ok, bad = rdk.validate("Obs_BondOrd", recs, ("id", "els", "ac", "bo", "charges", "unpaired", "lewis")) if recs else (set(), {})
     byid = {r["id"]: r for r in recs}
     for i, v in bad.items():
